@@ -1,7 +1,7 @@
-//! Shared pieces of the correspondence harness: PRNG, Coq term printing, case-file writer.
-pub mod ast_coq;
-pub mod gen;
-pub mod pipeline;
+//! Copy of the helpers of /verif/harness/src/lib.rs that the C19 driver needs (Rng, Coq term printing,
+//! case-file writer).  This package cannot depend on the shared harness crate cheaply (it would pull every
+//! /repo crate into the loader build), and `#[path]`-including lib.rs drags in its sub-modules.
+#![allow(dead_code)]
 
 use std::fmt::Write as _;
 use std::fs;
